@@ -516,7 +516,11 @@ def main(argv):
             coq_ok = False
             coq_log = pout[-4000:]
     if not coq_ok:
-        problems.append("coq: Props/%s.v or a dependency does not compile" % pid)
+        m_ = re.search(r'File "\./([^"]+)", line (\d+)', coq_log)
+        problems.append("coq: Props/%s.v or a dependency does not compile" % pid
+                        + (" (first error: coq/%s line %s)" % (m_.group(1), m_.group(2)) if m_ else "")
+                        + ("; the model generated from the source, %s, differs from the committed one" % gen_info.get("generated_file")
+                           if gen_info and gen_info.get("differs_from_committed") else ""))
     bad_ax = [a for a in axioms if a not in ALLOWED_AXIOMS]
     if bad_ax:
         problems.append("coq: theorem depends on non-stdlib axioms: " + ", ".join(bad_ax))
